@@ -256,3 +256,84 @@ verus!{
 pub assume_specification<T: Clone> [<[T]>::to_vec] (s: &[T]) -> (r: crate::Vec<T>)
     ensures r@ == s@;
 }
+
+verus!{
+// ---------------------------------------------------------------- x25519_dalek / subtle
+#[verifier::external_type_specification] #[verifier::external_body] pub struct ExX25519Pk(x25519_dalek::PublicKey);
+#[verifier::external_type_specification] #[verifier::external_body] pub struct ExXSk(x25519_dalek::StaticSecret);
+#[verifier::external_type_specification] #[verifier::external_body] pub struct ExXSs(x25519_dalek::SharedSecret);
+#[verifier::external_type_specification] #[verifier::external_body] pub struct ExChoice(subtle::Choice);
+pub uninterp spec fn x_pk_bytes(pk: &x25519_dalek::PublicKey) -> Bytes;
+pub uninterp spec fn x_sk_bytes(sk: &x25519_dalek::StaticSecret) -> Bytes;
+pub uninterp spec fn x_ss_bytes(ss: &x25519_dalek::SharedSecret) -> Bytes;
+// RFC 7748 X25519(k, 9) and X25519(k, u) on 32-byte strings (clamping of k included)
+pub uninterp spec fn x_base(sk: Bytes) -> Bytes;
+pub uninterp spec fn x_mul(sk: Bytes, pk: Bytes) -> Bytes;
+pub assume_specification [x25519_dalek::PublicKey::as_bytes] (pk: &x25519_dalek::PublicKey) -> (r: &[u8; 32]) ensures r@ == x_pk_bytes(pk);
+pub assume_specification [x25519_dalek::StaticSecret::as_bytes] (sk: &x25519_dalek::StaticSecret) -> (r: &[u8; 32]) ensures r@ == x_sk_bytes(sk);
+pub assume_specification [x25519_dalek::SharedSecret::as_bytes] (ss: &x25519_dalek::SharedSecret) -> (r: &[u8; 32]) ensures r@ == x_ss_bytes(ss);
+pub assume_specification [<x25519_dalek::PublicKey as From<[u8; 32]>>::from] (b: [u8; 32]) -> (r: x25519_dalek::PublicKey) ensures x_pk_bytes(&r) == b@;
+pub assume_specification [<x25519_dalek::StaticSecret as From<[u8; 32]>>::from] (b: [u8; 32]) -> (r: x25519_dalek::StaticSecret) ensures x_sk_bytes(&r) == b@;
+pub assume_specification<'a> [<x25519_dalek::PublicKey as From<&'a x25519_dalek::StaticSecret>>::from] (sk: &'a x25519_dalek::StaticSecret) -> (r: x25519_dalek::PublicKey) ensures x_pk_bytes(&r) == x_base(x_sk_bytes(sk));
+pub assume_specification [x25519_dalek::StaticSecret::diffie_hellman] (sk: &x25519_dalek::StaticSecret, pk: &x25519_dalek::PublicKey) -> (r: x25519_dalek::SharedSecret)
+    ensures x_ss_bytes(&r) == x_mul(x_sk_bytes(sk), x_pk_bytes(pk)), x_ss_bytes(&r).len() == 32;
+pub broadcast axiom fn x_lens(pk: &x25519_dalek::PublicKey, sk: &x25519_dalek::StaticSecret)
+    ensures #[trigger] x_pk_bytes(pk).len() == 32, #[trigger] x_sk_bytes(sk).len() == 32;
+pub broadcast axiom fn x_ss_len(ss: &x25519_dalek::SharedSecret) ensures #[trigger] x_ss_bytes(ss).len() == 32;
+pub broadcast axiom fn x_fn_lens(a: Bytes, b: Bytes) ensures #[trigger] x_mul(a, b).len() == 32;
+pub broadcast axiom fn x_base_len(a: Bytes) ensures #[trigger] x_base(a).len() == 32;
+pub open spec fn zeros(n: nat) -> Bytes { Seq::new(n, |i: int| 0u8) }
+}
+
+verus!{
+// ---------------------------------------------------------------- elliptic_curve / p256 / p384 / p521 (opaque)
+#[verifier::external_type_specification] #[verifier::external_body] #[verifier::accept_recursive_types(C)]
+pub struct ExEcPublicKey<C: ::elliptic_curve::CurveArithmetic>(::elliptic_curve::PublicKey<C>);
+#[verifier::external_type_specification] #[verifier::external_body] #[verifier::accept_recursive_types(C)]
+pub struct ExEcSecretKey<C: ::elliptic_curve::Curve>(::elliptic_curve::SecretKey<C>);
+#[verifier::external_type_specification] #[verifier::external_body] #[verifier::accept_recursive_types(C)]
+pub struct ExEcSharedSecret<C: ::elliptic_curve::Curve>(::elliptic_curve::ecdh::SharedSecret<C>);
+#[verifier::external_type_specification] #[verifier::external_body] pub struct ExNistP256(p256::NistP256);
+#[verifier::external_type_specification] #[verifier::external_body] pub struct ExNistP384(p384::NistP384);
+#[verifier::external_type_specification] #[verifier::external_body] pub struct ExNistP521(p521::NistP521);
+}
+
+verus!{
+// serialized views of the elliptic-curve types (uncompressed SEC1 point / big-endian scalar / x-coordinate)
+pub uninterp spec fn ec_pk_bytes<C: ::elliptic_curve::CurveArithmetic>(pk: &::elliptic_curve::PublicKey<C>) -> Bytes;
+pub uninterp spec fn ec_sk_bytes<C: ::elliptic_curve::Curve>(sk: &::elliptic_curve::SecretKey<C>) -> Bytes;
+pub uninterp spec fn ec_ss_bytes<C: ::elliptic_curve::Curve>(ss: &::elliptic_curve::ecdh::SharedSecret<C>) -> Bytes;
+// "bytes is a SEC1 encoding (of any form the parser accepts) of a non-identity point on the curve"
+pub uninterp spec fn sec1_valid<C>(b: Bytes) -> bool;
+// "bytes is a big-endian scalar in [1, n-1]"
+pub uninterp spec fn scalar_ok<C>(b: Bytes) -> bool;
+// uncompressed SEC1 encoding of sk*G;  x-coordinate of sk*P
+pub uninterp spec fn ec_base<C>(sk: Bytes) -> Bytes;
+pub uninterp spec fn ec_dh<C>(sk: Bytes, pk: Bytes) -> Bytes;
+// field-element length in bytes of curve C (32 / 48 / 66), cross-checked by Kani `sizes_table`
+pub uninterp spec fn ec_flen<C>() -> nat;
+pub broadcast axiom fn ec_flen_p256() ensures #[trigger] ec_flen::<p256::NistP256>() == 32;
+pub broadcast axiom fn ec_flen_p384() ensures #[trigger] ec_flen::<p384::NistP384>() == 48;
+pub broadcast axiom fn ec_flen_p521() ensures #[trigger] ec_flen::<p521::NistP521>() == 66;
+pub broadcast group ec_flens { ec_flen_p256, ec_flen_p384, ec_flen_p521 }
+
+#[verifier::external_type_specification] #[verifier::external_body]
+pub struct ExEcError(::elliptic_curve::Error);
+
+pub assume_specification<C> [::elliptic_curve::PublicKey::<C>::from_sec1_bytes] (bytes: &[u8]) -> (r: Result<::elliptic_curve::PublicKey<C>, ::elliptic_curve::Error>)
+    where C: ::elliptic_curve::CurveArithmetic, ::elliptic_curve::FieldBytesSize<C>: ::elliptic_curve::sec1::ModulusSize,
+          ::elliptic_curve::AffinePoint<C>: ::elliptic_curve::sec1::FromEncodedPoint<C> + ::elliptic_curve::sec1::ToEncodedPoint<C>,
+    ensures
+        r is Ok <==> sec1_valid::<C>(bytes@),
+        // at the full uncompressed length the accepted encoding is canonical: re-encoding returns it
+        r is Ok && bytes@.len() == 1 + 2 * ec_flen::<C>() ==> ec_pk_bytes::<C>(&r.unwrap()) == bytes@;
+
+
+pub assume_specification<C> [::elliptic_curve::SecretKey::<C>::public_key] (sk: &::elliptic_curve::SecretKey<C>) -> (r: ::elliptic_curve::PublicKey<C>)
+    where C: ::elliptic_curve::Curve + ::elliptic_curve::CurveArithmetic,
+    ensures ec_pk_bytes::<C>(&r) == ec_base::<C>(ec_sk_bytes::<C>(sk));
+
+}
+// ghost helper: names the curve parameter of `elliptic_curve::SecretKey<C>` (type-level only)
+pub trait CurveOf { type C: ::elliptic_curve::Curve; }
+impl<C: ::elliptic_curve::Curve> CurveOf for ::elliptic_curve::SecretKey<C> { type C = C; }
